@@ -624,7 +624,7 @@ func security(v *V, d int) any {
 
 var unknownKeywords = []string{"foo", "unknownKeyword", "x", "xtra", "schemaProps", "extraProps", "extensions", "vendorExtensible", "swaggerSchemaProps", "$comment", "const", "nullable2", "examples", "if", "contentMediaType", "$id", "name", "in"}
 
-var extNames = []string{"x-a", "x-foo", "x-", "x-nullable", "x-order", "x-go-name", "x-é", "x-a\"b", "x-with space", "x-X"}
+var extNames = []string{"x-a", "x-foo", "x-", "x-nullable", "x-order", "x-go-name", "x-é", "x-a\"b", "x-with space", "x-X", "X-Upper", "X-mixed-Case"}
 
 // caseCollides: does name differ from one of the keywords only by letter case?
 func caseCollides(name string, keywords []string) bool {
@@ -784,6 +784,12 @@ func (v *V) extensions(out map[string]any, k, only string) {
 	for i := 0; i < n; i++ {
 		name := extNames[Uniform(v.T, "extname", len(extNames))]
 		if !v.O.Hostile && strings.ContainsAny(name, "\" éX") {
+			name = "x-plain"
+		}
+		if (v.O.Valid || k != "schema") && !strings.HasPrefix(name, "x-") {
+			// the Swagger 2.0 schema admits lower-case x- only; the library reads an upper-case X- member as an
+			// extension in schemas (kept under its spelling) and as an unknown member elsewhere, so the
+			// upper-case spellings are drawn for schemas only
 			name = "x-plain"
 		}
 		out[name] = v.Free(0)
